@@ -13,8 +13,12 @@ import vlib
 
 PROFILES = {"pOk": corpus.OK_PROFILE, "pOk2": corpus.OK_PROFILE_NESTED, "pRego": corpus.REGO_ERROR_PROFILES[0]}
 PCLASS = {"pOk": "ok", "pOk2": "ok", "pRego": "regoError"}
-DOCS = {"dOk": c09.DOCS["fail3"], "dOk2": c09.DOCS["failNested"], "dNotJson": c09.DOCS["notJsonLong"], "dPass": c09.DOCS["pass"]}
-DCLASS = {"dOk": "ok", "dOk2": "ok", "dNotJson": "notJson", "dPass": "ok"}
+DOCS = {"dOk": c09.DOCS["fail3"], "dOk2": c09.DOCS["failNested"], "dNotJson": c09.DOCS["notJsonLong"], "dPass": c09.DOCS["pass"],
+        # documents that fail at the same stage for different reasons (dense schedule only)
+        "dNotJson2": '[{"@id": "http://example.org/n1", "http://example.org/ns#p": tru', "dLd1": '{"@context": 5, "@id": "http://example.org/n1"}',
+        "dLd2": '{"@id": 5}', "dLd3": '{"@context": {"a": 5}, "a": 1}'}
+DCLASS = {"dOk": "ok", "dOk2": "ok", "dNotJson": "notJson", "dPass": "ok", "dNotJson2": "notJson", "dLd1": "ldReject", "dLd2": "ldReject",
+          "dLd3": "ldReject"}
 
 
 def schedules(n, seed_):
@@ -92,7 +96,10 @@ def run_(tier):
                       {"entry": "validateCompiled", "pkey": "pOk", "dkey": "dOk2", "shared": 0, "cfg": c2},
                       {"entry": "validate", "pkey": "pOk2", "dkey": "dOk2", "cfg": c1},
                       {"entry": "compile", "pkey": "pOk2", "dkey": "", "cfg": c2},
-                      {"entry": "validateCompiled", "pkey": "pOk2", "dkey": "dOk", "shared": 1, "cfg": c1}])
+                      {"entry": "validateCompiled", "pkey": "pOk2", "dkey": "dOk", "shared": 1, "cfg": c1},
+                      # failures at the same stage for different reasons, side by side: each caller gets ITS error
+                      {"entry": "validate", "pkey": "pOk", "dkey": ["dNotJson", "dNotJson2", "dLd1", "dLd2", "dLd3"][g % 5], "cfg": c1},
+                      {"entry": "validateCompiled", "pkey": "pOk", "dkey": ["dLd2", "dLd3", "dNotJson2", "dLd1", "dNotJson"][g % 5], "shared": 0, "cfg": c2}])
     cases.append({"id": "c10-dense", "profiles": PROFILES, "docs": DOCS, "dclasses": DCLASS, "pclasses": PCLASS,
                   "sharedProfiles": ["pOk", "pOk2"], "goroutines": dense, "probes": ["dOk", "dPass", "dOk2"],
                   "rounds": rounds + 2, "yield": True})
@@ -120,6 +127,11 @@ def run_(tier):
     races = race_reports(logdir)
     for key, txt in races:
         V.disagree(key, {"race_report": txt})
+    # the text of an error about the DATA (the profile compiles) is part of what a call returns
+    for o in obs:
+        for c in o["calls"]:
+            if c["kind"] == "error" and c.get("pkey") in ("pOk", "pOk2") and c.get("dkey"):
+                c["errsha"] = vlib.sha(c.get("err") or "")
     lines, byid = proto.to_trace(obs, "C10")
     rejected, tr = proto.validate_trace("c10", lines, timeout=600)
     bycase = {c["id"]: c for c in cases}
